@@ -252,6 +252,20 @@ def suite_missing(ctx, case):
     except ValueError: ok = False
     except Exception: ok = None
     ctx.pred('missing', case, ok == (not case['missing']), 'System.check() outcome %r with missing %s' % (ok, case['missing']), key='C16:check')
+    if not case['missing']:
+        # checking / creating / solving reads the System: densities, diameters, the sigma table, kT, the Domain's grids and the assigned objects' parameters stay
+        import copy as _c
+        def snap(z):
+            ty = z.types
+            return ([z.density[t] for t in ty], [z.diameter[t] for t in ty], [[z.diameter.sigma[a, b] for b in ty] for a in ty], z.kT, z.domain.length, float(z.domain.dr), z.domain.r.tolist(), z.domain.k.tolist(),
+                    [[getattr(z.potential[a, b], 'sigma', None) for b in ty] for a in ty], [[getattr(z.closure[a, b], 'potential', None) is None for b in ty] for a in ty])
+        s3 = G.build_system(sd); before = snap(s3)
+        with warnings.catch_warnings():
+            warnings.simplefilter('ignore')
+            for what, fn in (('check()', s3.check), ('createPRISM()', s3.createPRISM), ('check() again', s3.check)):
+                try: fn()
+                except Exception: pass
+                ctx.pred('missing', case, snap(s3) == before, 'System.%s changed the System (densities / diameters / sigma table / kT / grids / the potentials\' sigma)' % what, key='C16:system-modified')
     # the same description with other legal type labels (integers whose values are not their positions, 0 among them)
     for labels in ([2, 0, 5, 9], ['poly', 0, 'B', 4]):
         s2 = G.build_system(sd, types=labels[:sd['n']])
@@ -281,6 +295,9 @@ def equivalent_descriptions(ctx, case, sd):
         def wiring(p):
             ty = p.sys.types
             return ([np.asarray(p.sys.closure[ty[i], ty[j]].potential, dtype=float) for (i, j) in G.pairs_of(n)], [p.sys.closure[ty[i], ty[j]].sigma for (i, j) in G.pairs_of(n)])
+        ty0 = ref.sys.types
+        mirrored = all(ref.sys.potential[ty0[i], ty0[j]] is ref.sys.potential[ty0[j], ty0[i]] and ref.sys.closure[ty0[i], ty0[j]] is ref.sys.closure[ty0[j], ty0[i]] for (i, j) in G.pairs_of(n))
+        ctx.pred('missing', case, mirrored, 'a pair of the PRISM object\'s potential / closure table looked up in the other order is another object (edits through the other key order would be lost)', key='C16:wiring')
         U0, S0 = wiring(ref)
         variants = [('type labels %s' % lab[:n], sd, lab[:n]) for lab in ([1, 2, 3, 4], [1, 0, 3, 2], [2, 1, 4, 3], ['B', 'A', 'D', 'C'])]
         variants += [('all energies and kT x %g' % f, C04.scale_sd(sd, f), None) for f in (4.14e-21, 1.66e-24, 2.5e3)]
